@@ -60,7 +60,8 @@ Qed.
 Theorem earlier_missing_noticed : forall l d, loaded (None :: l) = Some d -> need_write (None :: l) = true.
 Proof. intros l d H. cbn [need_write]. destruct l as [|y t]; [discriminate H|reflexivity]. Qed.
 
-(* sizes only: a stale copy of the same size is not noticed (behaviour of the unchanged tree) *)
+(* sizes only: a stale copy of the same size is not noticed (behaviour of the unchanged tree).
+   This is the Coq witness of the open known finding F-C09-same-size-stale-copy-unnoticed (known_findings.json). *)
 Example same_size_stale_copy_not_noticed :
   need_write [Some [1%N; 2%N; 3%N]; Some [1%N; 9%N; 3%N]] = false /\ need_write [Some [1%N; 2%N; 3%N]; Some [1%N; 2%N]] = true /\
   need_write [Some [1%N]; Some [1%N]; None] = true /\ need_write [None; Some [1%N]] = true /\ need_write [Some [1%N]; Some [1%N]] = false.
